@@ -260,7 +260,27 @@ impl TirGen {
                 let (n, t) = rng.pick(&self.param_names).clone();
                 Param::ExpectValue(n, t)
             }
-            3 => Param::ExpectValue(self.string(rng), self.ty(rng)),
+            3 => {
+                // one name, one type: which of two conflicting declarations find_params reports would depend on
+                // the iteration order of hash containers on the way (directive fields), before and after a
+                // round trip alike
+                let n = self.string(rng);
+                let t = match crate::rng::fnv64(n.as_bytes()) % 12 {
+                    0 => Type::Undefined,
+                    1 => Type::Unit,
+                    2 => Type::Int,
+                    3 => Type::Bool,
+                    4 => Type::Bytes,
+                    5 => Type::Address,
+                    6 => Type::Utxo,
+                    7 => Type::UtxoRef,
+                    8 => Type::AnyAsset,
+                    9 => Type::List,
+                    10 => Type::Map,
+                    _ => Type::Custom("Thing".into()),
+                };
+                Param::ExpectValue(n, t)
+            }
             4 if !self.in_query => {
                 // one query per name: `find_queries` keeps one entry per name and which one survives
                 // would depend on hash order
